@@ -119,6 +119,18 @@ CHECKS = {
              "exclude_unset True/False (typed and untyped) are compared after the last step.",
         design_ref="7 C15", technique="TLA+ state machine over operation histories, TLC exhaustive + simulation, step-wise replay",
         note="Values are small ints, aliases are names. The undecorated-subclass corner is a sandwich (provided <= set <= stored fields)."),
+    "C16": dict(
+        category="model_checking",
+        text="spec/Ordering.tla: a literal transcription of sort_by_order (Layer M) and the documented rules as laws on "
+             "the result (Permutation, RootsSorted, BlocksContiguous, AttachedSides). TLC checks, for EVERY ordering "
+             "specification over 3 (quick) / 4 (thorough) elements -- order values, after / before any element or a "
+             "dangling name, class-level overrides on a base class and on the class -- that the transcription obeys the "
+             "laws on well-formed specs and never duplicates; a negative check shows it loses orphans (known finding). "
+             "Every spec is replayed on a generated class and the order observed in four views: serialize keys, both "
+             "JSON schemas' properties, GraphQL fields.",
+        design_ref="7 C16", technique="TLA+ transcription + laws, TLC exhaustive over small sizes, replay in 4 views",
+        note="Elements are int fields / int serialized methods with single-letter names. Ill-formed (dangling / cyclic) "
+             "specs: losing elements is the listed known finding F-order-orphans."),
     "C20": dict(
         category="model_checking",
         text="spec/RecCheck.tla models is_recursive / RecursiveChecker.visit with one action per access to the shared "
